@@ -6,7 +6,7 @@
     commutative ring (MathComp [comRingType]), [ROps R ...] = the model's operations instantiated with
     the ring operations, the uninterpreted ones (division, sqrt, fabs, <) arbitrary. *)
 From mathcomp Require Import all_ssreflect all_algebra.
-From LP Require Import Num C04_Model C04_State C04_Life C04_Proofs_Struct C04_Proofs_Laws C04_Proofs_Block C04_Proofs_State C04_Proofs_Life C04_Proofs_Hist C04_Proofs_Alg.
+From LP Require Import Num C04_Model C04_State C04_Life C04_Proofs_Struct C04_Proofs_Laws C04_Proofs_Block C04_Proofs_State C04_Proofs_Life C04_Proofs_Hist C04_Proofs_Alg C04_Amb C04_Proofs_Amb.
 Import GRing.Theory.
 Local Open Scope ring_scope.
 
@@ -615,3 +615,33 @@ Theorem C04_examples_ring_rcf :
    (exists2 i, (i < vdim v)%N & vent Ops v i != 0) /\ exists w, v_normalized Ops v = Ok w).
 Proof. exact (conj ring_shapes_instance normalized_instance). Qed.
 Print Assumptions C04_examples_ring_rcf.
+
+(** The ambient floating-point control state (model coq/C04_Amb.v: flush-to-zero, denormals-are-zero, rounding direction; the
+    calls of OTHER facilities of the library an `amb` case makes before its request, [foreign_step] = what each of them does to that
+    state as the library is now).  "A*I equals A exactly", "products have entries sum_k a_ik*b_kj", "scalar multiplication and
+    division distribute over entries" are clauses about IEEE arithmetic in the state the process started with: they survive any
+    sequence of calls of the other facilities because no such sequence, of any length, changes the state; a request made after it is
+    answered as a pristine process answers it, and the number the driver prints next to the two answers is 0 exactly when the
+    state is unchanged.  (That the C++ facilities do what [foreign_step] says is what the `amb` cases test on every run: the harness
+    prints the control state the calls really leave and the answer of a pristine forked process.) *)
+Theorem C04_foreign_calls_keep_control_state (cs : list foreign) (e : fenv) : foreign_run e cs = e.
+Proof. exact (foreign_run_id cs e). Qed.
+Print Assumptions C04_foreign_calls_keep_control_state.
+Theorem C04_foreign_calls_compose (cs1 cs2 : list foreign) (e : fenv) :
+  foreign_run e (cs1 ++ cs2) = foreign_run (foreign_run e cs1) cs2.
+Proof. exact (foreign_run_app cs1 cs2 e). Qed.
+Print Assumptions C04_foreign_calls_compose.
+Theorem C04_ambient_answer (A : Type) (e0 : fenv) (cs : list foreign) (request : fenv -> A) :
+  amb_answer e0 cs request = (request e0, request e0, 0%N).
+Proof. exact (@amb_answer_pristine A e0 cs request). Qed.
+Print Assumptions C04_ambient_answer.
+Theorem C04_control_state_diff (a b : fenv) : (fenv_diff a b = 0%N) <-> (a = b).
+Proof. exact (fenv_diff_zero a b). Qed.
+Print Assumptions C04_control_state_diff.
+Theorem C04_examples_control_state :
+  (fenv_diff (mkFenv true false RNearest) fenv_default = 1%N) /\
+  (fenv_diff (mkFenv false true RNearest) fenv_default = 2%N) /\
+  (fenv_diff (mkFenv false false RTowardZero) fenv_default = 4%N) /\
+  (foreign_run fenv_default (FEigenvalues :: FIntegrate :: FSample :: nil) = fenv_default).
+Proof. exact fenv_diff_instances. Qed.
+Print Assumptions C04_examples_control_state.
